@@ -74,12 +74,14 @@ type monitors struct {
 	logs       map[uint64]*rlog
 	committed  map[uint64]entryID
 	committedH map[uint64]bool // hash known
-	maxCommit  uint64
-	commitSeen map[uint64]uint64
-	stateAt    map[uint64][3]uint64
-	stateBy    map[uint64]uint64
-	memberAt   map[uint64]uint64
-	truncs     int
+	// committedIn: term of the leader under which the index was committed
+	committedIn map[uint64]uint64
+	maxCommit   uint64
+	commitSeen  map[uint64]uint64
+	stateAt     map[uint64][3]uint64
+	stateBy     map[uint64]uint64
+	memberAt    map[uint64]uint64
+	truncs      int
 
 	// C03
 	leaderOf map[uint64]uint64
@@ -129,7 +131,7 @@ func newMonitors(s *Sim, sink Sink) *monitors {
 		s: s, sink: sink,
 		nextPush: map[uint64]uint64{}, applied: map[uint64]entryID{}, appliedBy: map[uint64]uint64{},
 		lastUser: map[uint64]uint64{}, logs: map[uint64]*rlog{}, committed: map[uint64]entryID{},
-		committedH: map[uint64]bool{}, commitSeen: map[uint64]uint64{}, stateAt: map[uint64][3]uint64{},
+		committedH: map[uint64]bool{}, committedIn: map[uint64]uint64{}, commitSeen: map[uint64]uint64{}, stateAt: map[uint64][3]uint64{},
 		stateBy: map[uint64]uint64{}, memberAt: map[uint64]uint64{},
 		leaderOf: map[uint64]uint64{}, votes: map[[2]uint64]uint64{}, voteResp: map[[2]uint64]map[uint64]bool{},
 		reads: map[pb.SystemCtx]*readRec{}, regEvt: map[uint64]map[pb.SystemCtx]uint64{},
@@ -229,7 +231,10 @@ func (m *monitors) onSaved(r *replica, ud *pb.Update) {
 			if r.cfg.IsWitness {
 				id.Hash, id.Key, id.Typ = 0, 0, 0
 			}
-			if c, ok := m.committed[e.Index]; ok {
+			// a replica may lose entries it does not know to be committed to a
+			// deposed leader of an intermediate term (plain raft); entries at or
+			// below the commit index the replica itself has ever known are final
+			if c, ok := m.committed[e.Index]; ok && e.Index <= m.commitSeen[r.id] {
 				if c.Term != id.Term || (m.committedH[e.Index] && !r.cfg.IsWitness && (c.Hash != id.Hash || c.Typ != id.Typ)) {
 					if old, had := l.ents[e.Index]; had && old.Term == c.Term {
 						m.violation("C02", "committed-entry-replaced",
@@ -242,7 +247,7 @@ func (m *monitors) onSaved(r *replica, ud *pb.Update) {
 		// everything after the saved range is logically gone
 		for i := lastNew + 1; i <= l.last; i++ {
 			if old, had := l.ents[i]; had {
-				if c, ok := m.committed[i]; ok && c.Term == old.Term {
+				if c, ok := m.committed[i]; ok && c.Term == old.Term && i <= m.commitSeen[r.id] {
 					m.violation("C02", "committed-entry-truncated",
 						fmt.Sprintf("replica %d truncated its log to %d, dropping committed index %d (term %d)", r.id, lastNew, i, c.Term))
 				}
@@ -366,6 +371,13 @@ func (m *monitors) onStepEnd(r *replica) {
 					m.committedH[i] = true
 				} else {
 					m.committed[i] = entryID{Term: t}
+				}
+				// the first observer of a commit is in the term of the leader
+				// that committed it (commit indexes are only learned from the
+				// leader of one's own term)
+				m.committedIn[i] = v.Term
+				if os.Getenv("VERIF_DEBUG") == "3" {
+					fmt.Fprintf(os.Stderr, "%d: index %d (term %d) first seen committed at replica %d role %s term %d voters %v nv %v w %v\n", m.s.stepNo, i, t, r.id, v.Role, v.Term, v.Voters, v.NonVotings, v.Witnesses)
 				}
 				m.count("entries_committed", 1)
 			}
@@ -588,9 +600,11 @@ func (m *monitors) onLeaderUpdated(r *replica, info server.LeaderInfo) {
 		m.violation("C03", "leader-without-vote-quorum",
 			fmt.Sprintf("replica %d became leader of term %d with %d votes from voting members, quorum is %d (voting set %v)", r.id, info.Term, got, v.Quorum, voting))
 	}
-	// leader completeness
+	// leader completeness: every entry committed in an earlier term (a leader
+	// that learns late that it won an old term need not hold what later terms
+	// committed)
 	for i, c := range m.committed {
-		if i < v.FirstIndex {
+		if i < v.FirstIndex || m.committedIn[i] >= info.Term {
 			continue
 		}
 		t := r.peer.VerifTerm(i)
